@@ -26,6 +26,7 @@ class Link:
         self.held = []          # (release_after_n_more, link, direction, data)
         self.seen = [0, 0]
         self.strangers = []
+        self.force_copy_later = False
         mbox.hook = self.hook
 
     def act(self, what):
@@ -45,6 +46,13 @@ class Link:
         r = self.rnd.random()
         if self.seen[d] <= 1:
             r = 0.0             # the first datagram of a direction sets the session up: let it through
+        elif d == 0 and self.force_copy_later:
+            # scripted by the session: this client datagram passes now and a copy of it is kept until flush()
+            self.force_copy_later = False
+            self.act("duplicate_after_unsendable")
+            out.insert(0, data)
+            self.held.append((10 ** 6, ln, d, data))
+            return out
         if r < 0.45:
             self.act("pass")
             out.insert(0, data)
@@ -110,6 +118,19 @@ async def session(conf, seed, events, stats, n):
             await s.w.drain(rnd.choice([0, 1, 2, 3]), 1.5)
             if i % 7 == 6:
                 link.flush()
+            if i % 9 == 4:
+                # a datagram is accepted and relayed; then the same session sends datagrams the server cannot pass on (a target
+                # it cannot reach from its IPv4 socket, a name that does not resolve, port 0); then a copy of the first one
+                # arrives: it is a copy all the same, and the datagrams after it are delivered
+                link.force_copy_later = True
+                s.send(a, t, rnd.randint(16, 300), rep=1, rsize=rnd.randint(16, 300))
+                await s.w.drain(0, 1.5)
+                for host, port in rnd.sample([("::1", 9), ("no-such-host-c11.invalid", 5353), ("127.0.0.1", 0), ("fe80::1", 53)], 2):
+                    hdr = b"\x00\x00\x00" + e2e.socks5_addr(host, port)
+                    s.w.send(a, t, 40, rep=0, must=False, raw_header=hdr)
+                    await asyncio.sleep(0.05)
+                link.flush()
+                await asyncio.sleep(0.05)
         link.flush()
         await s.w.drain(0, 2.0)
         link.flush()
